@@ -275,9 +275,7 @@ func (fc *FnCtx) contractAxiom(key string) {
 		return
 	}
 	var tpkg *types.Package
-	if p, ok := fc.eng.Pkgs[ctr.Pkg]; ok {
-		tpkg = p.Types
-	}
+	tpkg = fc.pkgTypes(ctr.Pkg)
 	env := &Env{fc: fc, tpkg: tpkg, names: map[string]TV{}, cur: fc.entry}
 	name, _ := fc.pureFun(fn)
 	var qs, as []string
@@ -338,9 +336,7 @@ func (fc *FnCtx) axiomFacts(using []string) []string {
 			}
 		}
 		var tpkg *types.Package
-		if p, ok := fc.eng.Pkgs[l.Pkg]; ok {
-			tpkg = p.Types
-		}
+		tpkg = fc.pkgTypes(l.Pkg)
 		env := &Env{fc: fc, tpkg: tpkg, names: map[string]TV{}, cur: fc.entry}
 		n := len(fc.errs)
 		g := env.tr(l.E)
